@@ -226,7 +226,7 @@ func vC36RunOverlapped(m *Metrics, targets []string, pick func(alive []int) int)
 			if done {
 				alive = append(alive[:ai], alive[ai+1:]...)
 			}
-		case <-time.After(5 * time.Second):
+		case <-time.After(1500 * time.Millisecond):
 			// the request waits for something a gated request holds (a handler that serialises scrapes): open the
 			// gates and let everything finish; every response is still judged.
 			blocked = true
@@ -236,7 +236,7 @@ func vC36RunOverlapped(m *Metrics, targets []string, pick func(alive []int) int)
 				if j != i {
 					select {
 					case s.resume[j] <- struct{}{}:
-					case <-time.After(5 * time.Second):
+					case <-time.After(1500 * time.Millisecond):
 					}
 				}
 			}
